@@ -8,6 +8,7 @@ package c04
 
 import (
 	"bytes"
+	"crypto/sha256"
 	"fmt"
 	"io"
 	"math/big"
@@ -172,10 +173,12 @@ func (m *c04qModel) clone() *c04qModel {
 func (m *c04qModel) content() string {
 	var sb strings.Builder
 	fmt.Fprintf(&sb, "o=%d n=%d k=%s u=%d", m.oldest, m.newest, m.kquai, m.updateBit)
+	hs := sha256.New()
 	for _, it := range m.items {
 		h := it.Hash()
-		sb.Write(h[:])
+		hs.Write(h[:])
 	}
+	sb.Write(hs.Sum(nil)) // fixed-size key: the maps keep up to 2 x 200000 of these
 	return sb.String()
 }
 
@@ -390,7 +393,7 @@ func TestC04Q_Queue(t *testing.T) {
 				push([]*types.Transaction{e})
 			},
 			"pushBulk": func(t *rapid.T) {
-				if rapid.IntRange(0, 19).Draw(t, "gate") != 0 {
+				if rapid.IntRange(0, 29).Draw(t, "gate") != 0 {
 					t.Skip("gated")
 				}
 				n := rapid.IntRange(120, 300).Draw(t, "n")
